@@ -117,7 +117,11 @@ RETCODE adfMountHdFile ( struct AdfDevice * const dev )
         dev->nVol = 0;
         return RC_ERROR;
     }
-    vol->lastBlock = vol->rootBlock*2 - 1 ;
+    /* a hardfile with an odd number of blocks keeps its last block */
+    if ( (int32_t) ( dev->size / 512 ) / 2 == vol->rootBlock )
+        vol->lastBlock = (int32_t) ( dev->size / 512 ) - 1;
+    else
+        vol->lastBlock = vol->rootBlock*2 - 1 ;
 
     return RC_OK;
 }
